@@ -9,7 +9,7 @@ import copy
 import re
 import sys
 import warnings
-from functools import lru_cache
+from functools import lru_cache, wraps
 from importlib.metadata import version
 from numbers import Number as numeric_type
 
@@ -176,17 +176,38 @@ def _iterable(obj):
     return True
 
 
-@lru_cache(maxsize=128, typed=False)
+def _unit_rule_cache(rule):
+    """lru_cache for the unit rules below, keyed by the registries of the
+    operands as well.
+
+    Units of two registries with the same contents compare and hash equal, but
+    the unit a rule returns belongs to the registry of the operands it was
+    computed for and must not answer for operands of another registry."""
+    cached = lru_cache(maxsize=128, typed=False)(
+        lambda _registries, *args: rule(*args)
+    )
+
+    @wraps(rule)
+    def cached_rule(*args):
+        registries = tuple(id(getattr(arg, "registry", None)) for arg in args)
+        return cached(registries, *args)
+
+    cached_rule.cache_info = cached.cache_info
+    cached_rule.cache_clear = cached.cache_clear
+    return cached_rule
+
+
+@_unit_rule_cache
 def _sqrt_unit(unit):
     return 1, unit**0.5
 
 
-@lru_cache(maxsize=128, typed=False)
+@_unit_rule_cache
 def _cbrt_unit(unit):
     return 1, unit ** (1.0 / 3.0)
 
 
-@lru_cache(maxsize=128, typed=False)
+@_unit_rule_cache
 def _multiply_units(unit1, unit2):
     try:
         ret = (unit1 * unit2).simplify()
@@ -198,7 +219,7 @@ def _multiply_units(unit1, unit2):
     return ret.as_coeff_unit()
 
 
-@lru_cache(maxsize=128, typed=False)
+@_unit_rule_cache
 def _preserve_units(unit1, unit2=None):
     if unit2 is None or unit1.dimensions is not temperature:
         return 1, unit1
@@ -207,7 +228,7 @@ def _preserve_units(unit1, unit2=None):
     return 1, unit1
 
 
-@lru_cache(maxsize=128, typed=False)
+@_unit_rule_cache
 def _difference_units(unit1, unit2=None):
     if unit1.dimensions is not temperature:
         return _preserve_units(unit1, unit2)
@@ -243,17 +264,17 @@ def _difference_units(unit1, unit2=None):
         )
 
 
-@lru_cache(maxsize=128, typed=False)
+@_unit_rule_cache
 def _power_unit(unit, power):
     return 1, unit**power
 
 
-@lru_cache(maxsize=128, typed=False)
+@_unit_rule_cache
 def _square_unit(unit):
     return 1, unit * unit
 
 
-@lru_cache(maxsize=128, typed=False)
+@_unit_rule_cache
 def _divide_units(unit1, unit2):
     try:
         ret = (unit1 / unit2).simplify()
@@ -272,7 +293,7 @@ def _floor_divide_units(unit1, unit2):
     return 1, Unit(registry=unit1.registry)
 
 
-@lru_cache(maxsize=128, typed=False)
+@_unit_rule_cache
 def _reciprocal_unit(unit):
     return 1, unit**-1
 
